@@ -78,3 +78,33 @@ PROPS["C35"] = {
         H("c35_lower_above_2p52", [_CPC], "2^52 <= price < 2^60, 13 percent, 2 blocks (region of known finding F5 only)"),
     ],
 }
+
+_HC = "fuel_core_sync::import::cache::Cache::"
+_STEP_CUTS = ["BlockHeaderV1::recalculate_metadata -> no-op (sha256 of the header; the id is never read by the cache code)"]
+PROPS["C27"] = {
+    "crate": "sync",
+    "level": "model_checking",
+    "explanation": "The two private functions that produce every batch are executed symbolically on the real types: the gap "
+                   "splitter for all u32 arguments (exact canonical partition of the gap), and the accumulation step from every "
+                   "shape of the current batch.",
+    "bounds": "gap: all u32 cur <= height <= end, all batch sizes >= 1, at most 4 batches per gap (unwind 6); step: batch size "
+              "1..=3, current batch None / Headers / Blocks with 1 or 2 items, cached item a header or a block, all u32 heights",
+    "outside": "the loop of Cache::get_chunks that composes the two kernels (not reachable: symbolic execution did not finish "
+               "or exhausted 24 GB at range <= 4 with <= 2 cached items, on the real types and on stand-in payload types alike), "
+               "the BTreeMap behind collect_cache_data, ranges ending at u32::MAX",
+    "assumptions": ["caller contract of push_missing_chunks as in get_chunks: cur <= height <= end",
+                    "the current batch handed to handle_current_chunk ends at `height` (debug_assert in the code) and is None(0..0) when empty"],
+    "harnesses": [
+        H("c27_gap", [_HC + "push_missing_chunks"], "all u32, <= 4 batches per gap", timeout={"quick": 1200, "thorough": 3600}),
+        H("c27_step_none_header", [_HC + "handle_current_chunk"], "current None(0..0), cached header", cuts=_STEP_CUTS),
+        H("c27_step_none_block", [_HC + "handle_current_chunk"], "current None(0..0), cached block", cuts=_STEP_CUTS),
+        H("c27_step_headers1_header", [_HC + "handle_current_chunk"], "current Headers(1), cached header, batch size 1..=3", cuts=_STEP_CUTS),
+        H("c27_step_headers2_header", [_HC + "handle_current_chunk"], "current Headers(2), cached header, batch size 2..=3", cuts=_STEP_CUTS),
+        H("c27_step_headers1_block", [_HC + "handle_current_chunk"], "current Headers(1), cached block", cuts=_STEP_CUTS),
+        H("c27_step_headers2_block", [_HC + "handle_current_chunk"], "current Headers(2), cached block", cuts=_STEP_CUTS),
+        H("c27_step_blocks1_header", [_HC + "handle_current_chunk"], "current Blocks(1), cached header", cuts=_STEP_CUTS),
+        H("c27_step_blocks2_header", [_HC + "handle_current_chunk"], "current Blocks(2), cached header", cuts=_STEP_CUTS),
+        H("c27_step_blocks1_block", [_HC + "handle_current_chunk"], "current Blocks(1), cached block", cuts=_STEP_CUTS),
+        H("c27_step_blocks2_block", [_HC + "handle_current_chunk"], "current Blocks(2), cached block", cuts=_STEP_CUTS),
+    ],
+}
